@@ -259,7 +259,16 @@ func genSession(g, f *sim.Stream, tier string) (pieces []*replPiece, finalExpr s
 		id := 9000 + i*10
 		fp := &replPiece{Stale: map[int]int{}}
 		later := laterDefs(pos)
-		switch f.Intn(16) {
+		switch f.Intn(17) {
+		case 16:
+			// rejected for its parameter list, before the body is looked at
+			fp.Fault = "compile-undefined"
+			fp.Src = fmt.Sprintf("mark(%d, 1); ", id) + []string{
+				fmt.Sprintf("func tmpp%d(a=1, b) { return a }", i),
+				fmt.Sprintf("func tmpp%d(a=[1]) { return a }", i),
+				fmt.Sprintf("func tmpp%d(a, a) { return a }", i),
+				fmt.Sprintf("func outerp%d() { inner := func(x=1, y) { return x }; return inner }", i),
+			}[f.Intn(4)]
 		case 14:
 			// rejected inside a function literal that is a later pipe stage
 			fp.Fault = "compile-undefined"
@@ -576,6 +585,25 @@ func runC18(rc *fw.RunCtx) {
 			return
 		}
 		if r.Stage != "" {
+			// The fault-free session failed at run time. If the same statements
+			// run as ONE program succeed, that is the property's first clause
+			// violated without any fault; if they fail as well, the generated
+			// workload itself does not run on this tree and nothing can be judged.
+			var all []string
+			for _, q := range pieces {
+				if q.Effective != "" {
+					all = append(all, q.Effective)
+				}
+			}
+			hW2, cfgW2, _ := mk()
+			_ = hW2
+			w2 := &replSession{cfg: cfgW2}
+			if wr := w2.feed(bg, strings.Join(append(all, finalExpr), "\n")); wr.Stage == "" {
+				rc.NonTrivial = true
+				rc.Sample = map[string]any{"piece": p.Effective, "session": r.String(), "whole_program": wr.String()}
+				rc.Violate("equivalence/session-piece-failed", "piece %d %q fails in the (fault-free) session with %s, but the same statements evaluated as one program succeed (%s)", i, p.Effective, r, wr)
+				return
+			}
 			rc.Inconclusive = "precondition_reference_session_failed"
 			rc.Sample = map[string]any{"piece": p.Effective, "a0": r.String()}
 			return
